@@ -219,10 +219,10 @@ fn long_run<T: Scalar>(spec: &Spec, st: &mut Stats, sink: &Sink) {
 pub fn run(ctx: &Ctx) -> CheckOutput {
     let quick = ctx.tier == Tier::Quick;
     let mut jobs: Vec<Job> = vec![];
-    let cap_depth = if quick { 9 } else { 10 };
+    let cap_depth = if quick { 9 } else { 12 };
     // single views, all variants, N from the meaningful minimum
     for e in unary_catalogue() {
-        let ns: Vec<usize> = if e.has_n { (e.min_n..=e.min_n.max(4)).collect() } else { vec![1] };
+        let ns: Vec<usize> = if e.has_n { (e.min_n..=e.min_n.max(if quick { 4 } else { 7 })).collect() } else { vec![1] };
         for n in ns {
             for spec in variants(e.kind, n, &Spec::echo()) {
                 let recursive = matches!(e.kind, Kind::Ema | Kind::EmaAlpha | Kind::LaguerreFilter | Kind::SuperSmoother | Kind::Roofing | Kind::CyberCycle | Kind::TrendFlex | Kind::ReFlex | Kind::LaguerreRsi | Kind::Eft);
@@ -257,7 +257,7 @@ pub fn run(ctx: &Ctx) -> CheckOutput {
         }
     }
     // two-level chains, windows in {min, min+1}
-    let chain_depth = if quick { 8 } else { 9 };
+    let chain_depth = if quick { 8 } else { 10 };
     for (a, b) in [(0usize, 0usize), (1, 0), (0, 1), (1, 1)] {
         for o in unary_catalogue() {
             jobs.push(Box::new(move || {
